@@ -110,6 +110,22 @@ func init() {
 	v("IteInt64", func(ex *Exec, fr *Frame, a []Value) Value {
 		return term.Ite(a[0].(*term.T), a[1].(*term.T), a[2].(*term.T))
 	})
+	v("IteByte", func(ex *Exec, fr *Frame, a []Value) Value {
+		return term.Ite(a[0].(*term.T), a[1].(*term.T), a[2].(*term.T))
+	})
+	v("SelectByte", func(ex *Exec, fr *Frame, a []Value) Value {
+		xs := a[0].(Slice).A
+		i := a[1].(*term.T)
+		if i.IsConst() {
+			return xs[i.Int()]
+		}
+		ex.Assert(term.And(term.Sle(mkInt(0), i), term.Slt(i, mkInt(int64(len(xs))))), "SelectByte index in range", "assert", ex.posOf(fr))
+		r := xs[len(xs)-1].(*term.T)
+		for k := len(xs) - 2; k >= 0; k-- {
+			r = term.Ite(term.Eq(i, mkInt(int64(k))), xs[k].(*term.T), r)
+		}
+		return r
+	})
 	v("BytesEqual", func(ex *Exec, fr *Frame, a []Value) Value {
 		return bytesEqual(bytesOf(a[0]), bytesOf(a[1]))
 	})
